@@ -149,7 +149,19 @@ const (
 	cbAfterRead
 	cbKeyCompare // always installed on reopen when any non-default comparator name is used
 	cbChunked    // values live in memory in chunks: Val is the first chunk, the rest hangs off Transient
+	cbTransform  // BeforeItemWrite encodes the value (XOR), AfterItemRead decodes it: an inverse pair
 )
+
+func xorBytes(b []byte) []byte {
+	if b == nil {
+		return nil
+	}
+	o := make([]byte, len(b))
+	for i, x := range b {
+		o[i] = x ^ 0xA5
+	}
+	return o
+}
 
 // chunkTail is what a chunked value keeps in Item.Transient: everything after the first chunk.
 type chunkTail struct{ rest []byte }
@@ -263,6 +275,18 @@ func (w *World) callbacks() gkvlite.StoreCallbacks {
 			i.Transient = ct
 			return nil
 		}
+	}
+	if w.cfg&cbTransform != 0 {
+		// the intended use of the two hooks: what is written is an encoded COPY (the cached item
+		// is never touched), what is read back is decoded before anybody sees it
+		cb.BeforeItemWrite = func(c *gkvlite.Collection, i *gkvlite.Item) (*gkvlite.Item, error) {
+			return &gkvlite.Item{Key: i.Key, Val: xorBytes(i.Val), Priority: i.Priority, Transient: i.Transient}, nil
+		}
+		cb.AfterItemRead = func(c *gkvlite.Collection, i *gkvlite.Item) (*gkvlite.Item, error) {
+			i.Val = xorBytes(i.Val)
+			return i, nil
+		}
+		return cb
 	}
 	if w.cfg&cbBeforeWrite != 0 {
 		cb.BeforeItemWrite = func(c *gkvlite.Collection, i *gkvlite.Item) (*gkvlite.Item, error) { return i, nil }
